@@ -14,12 +14,16 @@ import xitorch
 import xitorch.integrate
 from xitorch import EditableModule
 from xitorch._impls.integrate.ivp.explicit_rk import rk4_ivp
+from xitorch._utils import verif_hooks as vh
 
 from vlib import tlc as tlcmod
 from vlib.ctx import Machinery
 
 DT = torch.float64
-INVS = ["AllCotangents", "SegmentsNewestFirst", "OneSegmentPerInterval", "AlwaysReseeded", "BackwardOptions", "TimeGradients"]
+BCKVAL = {"rtol": 3e-7, "atol": 3e-9}
+FWD_SUBSETS = [("atol", "rtol"), ("rtol",), ()]
+BCK_SUBSETS = [(), ("rtol",), ("atol",), ("atol", "rtol")]
+INVS = ["AllCotangents", "SegmentsNewestFirst", "OneSegmentPerInterval", "AlwaysReseeded", "BackwardOptions", "OptionInheritance", "TimeGradients"]
 
 
 # ----------------------------------------------------------------------------- families with closed-form solutions
@@ -54,7 +58,7 @@ class LinObj(EditableModule):
 
 GRIDS = {"inc": [0.0, 0.4, 1.0], "dec": [1.0, 0.5, -0.1], "ragged": [0.2, 0.25, 0.9, 1.0], "two": [0.0, 0.7]}
 FWD = {"rk45": dict(atol=1e-11, rtol=1e-10), "rk23": dict(atol=1e-10, rtol=1e-8), "rk4": dict(), "rk38": dict(), "euler": dict()}
-TOL = {"rk45": 2e-6, "rk23": 2e-4, "rk4": 2e-5, "rk38": 2e-5, "euler": 6e-2}
+TOL = {"rk45": 5e-9, "rk23": 2e-6, "rk4": 2e-5, "rk38": 2e-5, "euler": 6e-2}
 SUB = {"rk4": 30, "rk38": 30, "euler": 400}
 
 
@@ -71,7 +75,17 @@ def refine(ts, m):
     return torch.stack(pts), idx
 
 
-def run_case(tid, fam, method, gname, req, cot_idx, placement, probe_bwd, order2):
+def token(key, val, fwdo):
+    if val is None:
+        return "unset"
+    if val == BCKVAL[key]:
+        return "b"
+    if key in fwdo and val == fwdo[key]:
+        return "f"
+    return "other:%r" % (val,)
+
+
+def run_case(tid, fam, method, gname, req, cot_idx, placement, probe_bwd, order2, combo=0):
     """req: subset of {"y0","p","ts"} requiring grad"""
     g = torch.Generator().manual_seed(17 + tid)
     ts0 = torch.tensor(GRIDS[gname], dtype=DT)
@@ -92,30 +106,51 @@ def run_case(tid, fam, method, gname, req, cot_idx, placement, probe_bwd, order2
     else:
         ts, keep = ts0, list(range(len(ts0)))
     nt = len(ts)
-    cfg = {"family": fam, "method": method, "grid": gname, "requires_grad": sorted(req), "cotangent_on": cot_idx, "placement": placement,
+    adaptive = method in ("rk45", "rk23")
+    fkeys = FWD_SUBSETS[combo % 3] if (adaptive and probe_bwd) else tuple(sorted(FWD[method]))
+    bkeys = BCK_SUBSETS[(combo // 3) % 4] if adaptive else ()
+    fwdo = {k_: FWD[method][k_] for k_ in fkeys}
+    bcko = {k_: BCKVAL[k_] for k_ in bkeys}
+    if probe_bwd:
+        bcko.update(method=None, bcktag=1)    # method filled in below
+    cfg = {"fwd_opts": {"method": "f", "rtol": "f" if "rtol" in fwdo else "unset", "atol": "f" if "atol" in fwdo else "unset"},
+           "bck_opts": {"method": "b" if probe_bwd else "unset", "rtol": "b" if "rtol" in bcko else "unset", "atol": "b" if "atol" in bcko else "unset"},
+           "family": fam, "method": method, "grid": gname, "requires_grad": sorted(req), "cotangent_on": cot_idx, "placement": placement,
            "probe": probe_bwd, "nt": nt, "ts_requires_grad": "ts" in req, "order2": order2}
     segs = []
     store = {}
 
     def probe(f_, ts_seg, yaug, params, **kw):
-        segs.append({"ts": ts_seg.detach().clone(), "y": yaug.detach().clone(), "kw": sorted(kw.keys())})
+        segs.append({"ts": ts_seg.detach().clone(), "y": yaug.detach().clone(), "kw": sorted(kw.keys()),
+                     "eff": {"method": "b", "rtol": token("rtol", kw.get("rtol"), fwdo), "atol": token("atol", kw.get("atol"), fwdo)}})
         tf = torch.linspace(0.0, 1.0, 41, dtype=DT) * (ts_seg[1] - ts_seg[0]) + ts_seg[0]
         yt_ = rk4_ivp(f_, tf, yaug, params)
         return torch.stack([yt_[0], yt_[-1]])
     if placement == "object" and fam == "linear":
         obj = LinObj(p)
-        call = lambda: xitorch.integrate.solve_ivp(obj.f, ts, y0, params=(unused,), method=method,
-                                                   bck_options=({"method": probe, "bcktag": 1} if probe_bwd else {}), **FWD[method])
+        call = lambda: xitorch.integrate.solve_ivp(obj.f, ts, y0, params=(unused,), method=method, bck_options=bcko, **fwdo)
     else:
-        call = lambda: xitorch.integrate.solve_ivp(fcn, ts, y0, params=(p, unused), method=method,
-                                                   bck_options=({"method": probe, "bcktag": 1} if probe_bwd else {}), **FWD[method])
+        call = lambda: xitorch.integrate.solve_ivp(fcn, ts, y0, params=(p, unused), method=method, bck_options=bcko, **fwdo)
+    if probe_bwd:
+        bcko["method"] = probe
+    seen = []          # (solver class, rtol, atol) of every adaptive step attempt made while differentiating
+
+    def sink(evname, fields):
+        if evname == "ark.try" and phase[0] == "bwd":
+            s_ = fields["solver"]
+            c_ = (type(s_).__name__.lower(), s_.rtol, s_.atol)
+            if c_ not in seen:
+                seen.append(c_)
+    phase = ["fwd"]
     ev = []
     exc = None
     verd = []
     try:
         with warnings.catch_warnings():
             warnings.simplefilter("ignore")
+            vh.set_sink(sink)
             yt = call()
+            phase[0] = "bwd"
             yk = yt[keep]
             w = torch.zeros_like(yk)
             gw = torch.randn(yk.shape, generator=g, dtype=DT)
@@ -131,6 +166,9 @@ def run_case(tid, fam, method, gname, req, cot_idx, placement, probe_bwd, order2
             r1 = torch.autograd.grad(Lr, leaves[:-1], create_graph=order2, allow_unused=True)
             tol = TOL[method] if not probe_bwd else max(TOL[method], 1e-5)
             verd.append(["values_match_closed_form", bool(torch.allclose(yk, yr, atol=tol, rtol=tol))])
+            if adaptive and not probe_bwd:
+                # the backward integration is as accurate as ITS options (caller's bck_options, else the forward ones) allow
+                tol = max(tol, 10 * bcko.get("rtol", fwdo.get("rtol", 1e-5)), 10 * bcko.get("atol", fwdo.get("atol", 1e-8)))
             for nm, a, b in zip(names, g1, r1):
                 b0 = b if b is not None else torch.zeros_like(leaves[names.index(nm)])
                 a0 = a if a is not None else torch.zeros_like(b0)
@@ -149,6 +187,8 @@ def run_case(tid, fam, method, gname, req, cot_idx, placement, probe_bwd, order2
                         verd.append(["grad2_%s_matches" % nm, bool(torch.allclose(a0, b0, atol=2e3 * tol, rtol=2e3 * tol))])
     except Exception as e:
         exc = e
+    finally:
+        vh.set_sink(None)
     if probe_bwd and exc is None:
         # the first-order backward made one probe call per segment (second-order calls come after them)
         ny = y0.numel()
@@ -165,14 +205,24 @@ def run_case(tid, fam, method, gname, req, cot_idx, placement, probe_bwd, order2
                     lam = lam + torch.matrix_exp(p.detach().T * (tsd[j] - tsd[kf - 1])) @ w[j].detach() if True else lam
                 cot_ok = bool(torch.allclose(s["y"][ny:2 * ny], lam, atol=1e-5, rtol=1e-5))
             ev.append({"a": "seg", "from": kf, "to": kt, "y_is_stored": bool(torch.equal(s["y"][:ny], ytd[kf - 1].reshape(-1))),
-                       "cotangent_ok": cot_ok, "opts": "bck" if "bcktag" in s["kw"] else "fwd"})
+                       "cotangent_ok": cot_ok, "opts": "bck" if "bcktag" in s["kw"] else "fwd", "eff": s["eff"]})
     if exc is not None:
         ev.append({"a": "raise", "exc": "%s: %s" % (type(exc).__name__, str(exc)[:140])})
     else:
         gts = None
         if "ts" in req:
             gts = g1[names.index("ts")]
-        ev.append({"a": "ret", "ts_grad_present": gts is not None, "verdicts": verd})
+        ret = {"a": "ret", "ts_grad_present": gts is not None, "verdicts": verd}
+        if adaptive and not probe_bwd:
+            # configuration of the built-in backward integration as seen at its step attempts
+            if len(seen) == 1:
+                nm_, rt_, at_ = seen[0]
+                ret["eff"] = {"method": "f" if nm_ == method else "other:" + nm_,
+                              "rtol": token("rtol", rt_, fwdo) if (rt_ != 1e-5 or "rtol" in fwdo or "rtol" in bcko) else "unset",
+                              "atol": token("atol", at_, fwdo) if (at_ != 1e-8 or "atol" in fwdo or "atol" in bcko) else "unset"}
+            else:
+                ret["eff"] = {"method": "mixed:%d" % len(seen), "rtol": "mixed", "atol": "mixed"}
+        ev.append(ret)
     if not probe_bwd:
         # protocol events are only observable with the probe; a plain run contributes its verdicts
         cfg["nt"] = 1
@@ -218,19 +268,20 @@ def key_of(t, ev):
 
 def run(ctx):
     thorough = ctx.tier == "thorough"
-    base = dict(MaxNT=4 if not thorough else 6, Reseed=True, AddCotangent=True, UseBckOptions=True)
+    base = dict(MaxNT=4 if not thorough else 6, Reseed=True, AddCotangent=True, UseBckOptions=True, InheritFwd=True)
     t, cf = tlcmod.gen_mc(ctx.work, "IvpAdjoint", "MC_IA", base, invariants=INVS)
     r = ctx.model_check(t, cf, workers=4, coverage=True, label="exhaustive", timeout=300)
     ctx.check_coverage(r, ["Segment", "Finish"])
-    for sw, inv in (("Reseed", "AlwaysReseeded"), ("AddCotangent", "AllCotangents"), ("UseBckOptions", "BackwardOptions")):
+    for sw, inv in (("Reseed", "AlwaysReseeded"), ("AddCotangent", "AllCotangents"), ("UseBckOptions", "BackwardOptions"), ("InheritFwd", "OptionInheritance")):
         c = dict(base)
         c[sw] = False
         t, cf = tlcmod.gen_mc(ctx.work, "IvpAdjoint", "MC_IA_dev_" + sw, c, invariants=INVS)
         ctx.expect_violation(t, cf, inv=inv, label="deviation " + sw, workers=4, timeout=300)
     traces = []
     for tid, (fam, method, gname, req, cot, placement, probe, order2) in enumerate(case_list(thorough), 1):
-        traces.append(run_case(tid, fam, method, gname, req, cot, placement, probe, order2))
-        ctx.case(key=(fam, method, gname, tuple(sorted(req)), tuple(cot), placement, probe, order2))
+        combo = tid + ctx.seed if probe else (0 if (order2 or tid % 3) else 3 * (1 + (tid + ctx.seed) % 3))   # which options are given forward / in bck_options
+        traces.append(run_case(tid, fam, method, gname, req, cot, placement, probe, order2, combo))
+        ctx.case(key=(fam, method, gname, tuple(sorted(req)), tuple(cot), placement, probe, order2, combo % 12))
     # plain runs have no segment events: validate them with nt = 1 (no segment expected) - their verdicts are still bound
     rej = ctx.validate_traces("Trace_IvpAdjoint.tla", "Trace_IvpAdjoint.cfg", traces, shards=12)
     bytid = {t_["tid"]: t_ for t_ in traces}
